@@ -33,6 +33,12 @@ type SessionSpec struct {
 	Sched     []PauseAt
 	Lifo      bool
 	Wall      time.Duration
+	// CloseOverlap: Close is called while the Execute calls of the last group are in flight - as soon
+	// as all their work-start messages have been written - instead of after they returned.
+	CloseOverlap bool
+	// PausesFirst: at a quiescent point a goroutine parked at a yield point is released before a
+	// gated (slow) step is let go; otherwise slow steps are released first.
+	PausesFirst bool
 }
 
 type ExecOutcome struct {
@@ -119,10 +125,11 @@ func RunSession(spec SessionSpec) *SessionResult {
 		s, err := cli.ReadSchema()
 		res.ReadSchemaErr = err
 		res.SchemaOK = err == nil && s != nil
-		for _, group := range spec.Groups {
+		for gi, group := range spec.Groups {
 			if err != nil {
 				break // no healthy connection: the histories are about healthy ones
 			}
+			overlapClose := spec.CloseOverlap && gi == len(spec.Groups)-1
 			var wg sync.WaitGroup
 			for _, ex := range group {
 				o := &ExecOutcome{Spec: ex}
@@ -169,10 +176,30 @@ func RunSession(spec SessionSpec) *SessionResult {
 					atomic.AddInt32(&o.Returned, 1)
 				}()
 			}
+			if overlapClose {
+				want := map[string]bool{}
+				for _, ex := range group {
+					want[ex.RunID] = true
+				}
+				res.C2S.WaitWritten(func(tap []byte) bool {
+					items, _, _ := SplitStream(tap)
+					n := 0
+					for _, it := range items {
+						if rm := AsRuntime(it.Value); rm.OK && rm.ID == 1 && want[rm.RunID] {
+							n++
+						}
+					}
+					return n >= len(want)
+				})
+				res.CloseErr = cli.Close()
+				res.CloseReturned = true
+			}
 			wg.Wait()
 		}
-		res.CloseErr = cli.Close()
-		res.CloseReturned = true
+		if !res.CloseReturned {
+			res.CloseErr = cli.Close()
+			res.CloseReturned = true
+		}
 		// Like an engine that is done with a plugin, keep the plugin's output flowing until it exits:
 		// on a rendezvous transport a trailing message (e.g. a late signal error report) would
 		// otherwise hold the server in its 60 s send timeout.
@@ -189,7 +216,20 @@ func RunSession(spec SessionSpec) *SessionResult {
 	if wall == 0 {
 		wall = 20 * time.Second
 	}
-	res.Monitor = Monitor(func() bool { return doneCount.Load() == 2 }, nil, wall)
+	// gated ("slow") steps are released one at a time whenever nothing else can run
+	openGate := func(_ *Snapshot, v Verdict) bool {
+		if spec.PausesFirst {
+			if _, ok := Y.ReleaseOne(); ok {
+				return true
+			}
+		}
+		if w := res.Fixture.Gate.Waiting(); len(w) > 0 {
+			res.Fixture.Gate.Open(w[0])
+			return true
+		}
+		return false
+	}
+	res.Monitor = Monitor(func() bool { return doneCount.Load() == 2 }, openGate, wall)
 	res.CloseReturnedAtVerdict, res.ServerDoneAtVerdict = res.CloseReturned, res.ServerDone
 	res.Hits, res.Sig, res.NHits, res.Pauses = Y.Stats()
 	Y.Disarm()
